@@ -31,6 +31,10 @@ ASSUMPTIONS = ['the rst prints (M+1,) for observation/matrix/indptr and (N+1,) f
                'type "" stands for "no type" (the attribute is required, a type is not)',
                'metadata as in C01 (homogeneous categories, names that survive the slash escape)']
 
+from . import regen_h5 as _regen_h5
+# py2v_h5: regenerate coq/Gen/Hdf5Gen.v (Table.to_hdf5) from the source first
+regenerate = _regen_h5.hook(TRUSTED)
+
 _STATE = {}
 
 
